@@ -233,14 +233,20 @@ func (server *Server) tlsServe(l net.Listener, tlsConfig *tls.Config) error {
 			return err
 		}
 
-		tlsConn := tls.Server(conn, tlsConfig)
-		if err := tlsConn.Handshake(); err != nil {
-			return err
-		}
-		tlsState := tlsConn.ConnectionState()
-
-		go server.receive(tlsConn, &tlsState)
+		go server.receiveTLS(tls.Server(conn, tlsConfig))
 	}
+}
+
+// receiveTLS handles a client connection with TLS.
+func (server *Server) receiveTLS(tlsConn *tls.Conn) error {
+	// The handshake runs in the goroutine of the connection, so that a
+	// failed, slow or abandoned handshake affects only this client.
+	if err := tlsConn.Handshake(); err != nil {
+		log.Error(err)
+		return errors.Join(err, tlsConn.Close())
+	}
+	tlsState := tlsConn.ConnectionState()
+	return server.receive(tlsConn, &tlsState)
 }
 
 // receive handles a client connection.
